@@ -121,6 +121,18 @@ def run(ctx):
             muts = [m for i, m in enumerate(muts) if i % 5 == ctx.seed % 5]
         items += muts
         nsel += 1
+    # G6: every box shape of BoxLayouts.tla (all versions / flag subsets / counts / boundary values), plus their truncations in the thorough tier
+    ri = ctx.tlc_ok("BoxLayouts", "BoxLayouts_quick.cfg", workers=14, timeout=3000, heap="12g", stack="64m")
+    g6 = 0
+    for e in sorted(ri.exported, key=lambda e: (e["layout"], e["ver"], e["flags"], e["cnt"], str(e["pick"]), e["hdr"], e["wrap"])):
+        b = bytes(e["bytes"])
+        iid = "G6/%s/v%d/f%x/c%d/%s-%s/%s/%s" % (e["layout"], e["ver"], e["flags"], e["cnt"], e["pick"][0], e["pick"][1], e["hdr"], e["wrap"])
+        items.append((iid, "file", b))
+        g6 += 1
+        if not q and e["pick"][0] == 0 and e["hdr"] == "s32" and e["wrap"] == "none" and e["cnt"] == 2:
+            for c in range(8, len(b)):
+                items.append((iid + "/cut=%d" % c, "file", b[:c]))
+                g6 += 1
     trace, fatals = rc.monitor_sharded(ctx, "c04", items, shards=12, mem_kb=6000000)
     ctx.cov["evaluations"] = len(items)
     ctx.cov["distinct_nontrivial"] = len(set(b for _, _, b in items))
@@ -133,6 +145,7 @@ def run(ctx):
                          "G3": "count fields of 16 counted box types set to {0, true-1, true+1, 2^16, 2^31, 2^32-1}",
                          "G4": "truncation at every box boundary +-{0,1,4,8,hdr+4}; every byte for files <= 2 KiB",
                          "G5": "single deletion and adjacent swap of top-level and second-level boxes",
+                         "G6": "%d inputs: every instance of the 134 BoxLayouts.tla box shapes%s" % (g6, "" if q else " and every truncation of the count-2 shape instances"),
                          "bases": "%d files (corpus + seeded slice of G1)" % nsel,
                          "configurations": "DecodeFile / lazy / DecodeFileSR x flags {none, ISM, start-on-moof, both}; DecodeBox / DecodeBoxSR loops; Info at 4 levels; Encode and EncodeSW in both modes with and without trun optimisation",
                          "budgets": "2 s + 20 us/byte wall, 16 MiB + 1024 x length allocated, workers under ulimit -v 6 GB", "fatal_worker_crashes": fatals}
